@@ -113,8 +113,8 @@ thread_local! {
     pub static SCRIPT: RefCell<Option<Rc<Program>>> = const { RefCell::new(None) };
     pub static TRACE: RefCell<Vec<TraceRec>> = const { RefCell::new(Vec::new()) };
     pub static WATCH: RefCell<Rc<Watch>> = RefCell::new(Rc::new(Watch::default()));
-    /// error texts handed to reply entry points since the last `set_script` (C19 only: C03 says
-    /// nothing about the text)
+    /// Debug rendering of every Reply handed to a reply entry point since the last `set_script`
+    /// (C19 only: C03 says nothing about error texts or gas_used)
     pub static REPLY_ERRS: RefCell<Vec<String>> = const { RefCell::new(Vec::new()) };
 }
 
@@ -355,6 +355,8 @@ impl Contract<Empty, Empty> for Puppet {
                 }
             }
         }
+        // everything the reply was handed, verbatim (gas_used, error text, msg_responses included)
+        REPLY_ERRS.with(|t| t.borrow_mut().push(format!("{:?}", msg)));
         let rr = match &msg.result {
             SubMsgResult::Ok(r) => ReplyRec {
                 id: msg.id,
@@ -364,8 +366,7 @@ impl Contract<Empty, Empty> for Puppet {
                 #[allow(deprecated)]
                 data: r.data.as_ref().map(|d| d.to_vec()),
             },
-            SubMsgResult::Err(text) => {
-                REPLY_ERRS.with(|t| t.borrow_mut().push(text.clone()));
+            SubMsgResult::Err(_) => {
                 ReplyRec { id: msg.id, payload: msg.payload.to_vec(), ok: false, events: vec![], data: None }
             }
         };
